@@ -4,4 +4,7 @@ CONSTANTS
   MaxOps = 7
   MaxRedirects = 2
   FixOnce = TRUE
+  MaxVals = 3
+  HookDepth = 2
+  OwnBytes = TRUE
 CHECK_DEADLOCK FALSE
